@@ -18,7 +18,7 @@ def replay(prop, path):
     v = json.load(open(path))
     case = v["case"]
     mod = case.get("_module") or MODULE_OF[prop]
-    b = build_harness(case.get("_tags", "verif"))
+    b = build_harness(HARNESS_PKGS.get(prop, (mod,)), tags=case.get("_tags", "verif"))
     tp = os.path.join(scratch(), "replay.ndjson")
     c = {k: x for k, x in case.items() if k not in ("out", "diff") and not k.startswith("_")}
     with open(tp, "w") as fh:
@@ -37,7 +37,8 @@ def replay(prop, path):
     return 0
 
 
-MODULE_OF = {}
+MODULE_OF = {}      # property -> default harness module name (for --replay)
+HARNESS_PKGS = {}   # property -> harness packages to link
 
 
 def cfg(consts=None, invariants=(), props=(), emit=None, view=None, deadlock=False, constraint=None, spec=None):
@@ -64,7 +65,7 @@ MODULE_OF.update(C01="wire", C02="wire")
 
 @check("C01")
 def c01(res, tier, seed):
-    b = build_harness()
+    b = build_harness(("wire",))
     tour = os.path.join(scratch(), "c01.tour")
     r = tlc("MC_PbWire", cfg({"Tier": '"%s"' % tier}, invariants=["Laws"], emit="Emit"), emit_to=tour)
     res.add_tlc(r, "boundary domain of every primitive; laws: round trip, exact size, shortest form, bijectivity")
@@ -80,7 +81,7 @@ def c01(res, tier, seed):
 
 @check("C02")
 def c02(res, tier, seed):
-    b = build_harness()
+    b = build_harness(("wire",))
     tour = os.path.join(scratch(), "c02.tour")
     maxlen = 4 if tier == "quick" else 5
     alpha = "{0,1,2,8,9,10,11,12,13,14,15,19,20,127,128,255}"
@@ -96,3 +97,9 @@ def c02(res, tier, seed):
     res.rule = ("tour: every byte string up to the bound over a corner alphabet, 5 parsing entry points each, with the "
                 "specification's length/error verdict; distinct = (entry point, verdict class); driver: structure-aware random "
                 "fields + 7 mutation operators, <= 64 bytes, validated by Trace_PbWire")
+
+
+# ---------------------------------------------------------------------------- other families
+import glob as _glob, importlib as _importlib
+for _p in sorted(_glob.glob(os.path.join(os.path.dirname(os.path.abspath(__file__)), "props_*.py"))):
+    _importlib.import_module(os.path.basename(_p)[:-3])
